@@ -1,4 +1,5 @@
 import Pm.Daemon
+import Pm.AliasProof
 import Pm.Dev2Fd
 /-! Helper lemmas for property C01 (a request commands only the plugs of the nodes it names).
 
@@ -524,32 +525,41 @@ theorem handleWrite_devs (w : W) (c : Cli) : (handleWrite w c).1.devs = w.devs :
   repeat' split
   all_goals rfl
 
-theorem parseLine_cases (w : W) (c : Cli) (line : Bytes) :
-    (parseLine w c line).1.devs = w.devs ∨
+theorem handleWrite_cmd (w : W) (c : Cli) : (handleWrite w c).2.cmd = c.cmd := by
+  unfold handleWrite setCap
+  simp only []
+  repeat' split
+  all_goals rfl
+
+/-- what `_parse_input` does with a line, as far as the queues and the client's command go: nothing, or `install` on the
+    target list `_hostlist_create_validated` returned (`conf_exp_aliases` of the expansion of the typed expression, every
+    name a configured node), or on all nodes for a bare query -/
+theorem parseLine_cases' (w : W) (c : Cli) (line : Bytes) :
+    ((parseLine w c line).1.devs = w.devs ∧ (parseLine w c line).2.cmd = c.cmd) ∨
     ∃ com names, parseLine w c line = install w c com names ∧ c.cmd = none ∧
       ((isQuery (comIdx com) = true ∧ names = expand w.cfg.nodes) ∨
        (∃ arg hl, scan (kwOf com) (stripWs (line.takeWhile (· != 0))) = some arg ∧ createR (toChars arg) = .ok hl ∧
-          names = expand hl ∧ ∀ n ∈ names, (find w.cfg.nodes n).isSome = true)) := by
+          names = expAliases w.cfg.aliases (expand hl) ∧ ∀ n ∈ names, (find w.cfg.nodes n).isSome = true)) := by
   generalize hr : parseLine w c line = r
   rw [parseLine] at hr
   extract_lets fin cfg0 c1 c2 c3 try1 m devArg at hr
   by_cases hlong : (stripWs (line.takeWhile (· != 0))).length ≥ lineMax
-  · rw [if_pos hlong] at hr; subst hr; exact .inl rfl
+  · rw [if_pos hlong] at hr; subst hr; exact .inl ⟨rfl, rfl⟩
   rw [if_neg hlong] at hr
   split at hr
-  · subst hr; exact .inl rfl
+  · subst hr; exact .inl ⟨rfl, rfl⟩
   rename_i hcmd
   have hcmd : c.cmd = none := by simpa using hcmd
   split at hr
-  · subst hr; exact .inl rfl
+  · subst hr; exact .inl ⟨rfl, rfl⟩
   split at hr
-  · split at hr <;> (subst hr; exact .inl rfl)
+  · split at hr <;> (subst hr; exact .inl ⟨rfl, rfl⟩)
   split at hr
-  · subst hr; exact .inl rfl
+  · subst hr; exact .inl ⟨rfl, rfl⟩
   split at hr
-  · subst hr; exact .inl rfl
+  · subst hr; exact .inl ⟨rfl, rfl⟩
   split at hr
-  · subst hr; exact .inl (handleWrite_devs _ _)
+  · subst hr; exact .inl ⟨handleWrite_devs _ _, (handleWrite_cmd _ _).trans rfl⟩
   have hm : m = matchCmd (stripWs (line.takeWhile (· != 0))) := rfl
   clear_value m devArg
   split at hr
@@ -560,17 +570,17 @@ theorem parseLine_cases (w : W) (c : Cli) (line : Bytes) :
     split at hr
     · subst hr; exact .inr ⟨_, _, rfl, hcmd, .inl ⟨rfl, rfl⟩⟩
     split at hr
-    · subst hr; exact .inl rfl
-    · split at hr <;> (subst hr; exact .inl rfl)
+    · subst hr; exact .inl ⟨rfl, rfl⟩
+    · split at hr <;> (subst hr; exact .inl ⟨rfl, rfl⟩)
   · rename_i com arg
     have hscan := matchCmd_spec hm.symm
     split at hr
-    · subst hr; exact .inl rfl
-    · subst hr; exact .inl rfl
+    · subst hr; exact .inl ⟨rfl, rfl⟩
+    · subst hr; exact .inl ⟨rfl, rfl⟩
     · rename_i hl hcr
       extract_lets names bad at hr
       split at hr
-      · subst hr; exact .inl rfl
+      · subst hr; exact .inl ⟨rfl, rfl⟩
       · rename_i hbad
         subst hr
         refine .inr ⟨com, names, rfl, hcmd, .inr ⟨arg, hl, hscan, hcr, rfl, ?_⟩⟩
@@ -581,6 +591,62 @@ theorem parseLine_cases (w : W) (c : Cli) (line : Bytes) :
         cases hf : find w.cfg.nodes n with
         | none => exact absurd (by simp [hf]) h2
         | some i => rfl
+
+theorem parseLine_cases (w : W) (c : Cli) (line : Bytes) :
+    (parseLine w c line).1.devs = w.devs ∨
+    ∃ com names, parseLine w c line = install w c com names ∧ c.cmd = none ∧
+      ((isQuery (comIdx com) = true ∧ names = expand w.cfg.nodes) ∨
+       (∃ arg hl, scan (kwOf com) (stripWs (line.takeWhile (· != 0))) = some arg ∧ createR (toChars arg) = .ok hl ∧
+          names = expAliases w.cfg.aliases (expand hl) ∧ ∀ n ∈ names, (find w.cfg.nodes n).isSome = true)) := by
+  rcases parseLine_cases' w c line with h | h
+  · exact .inl h.1
+  · exact .inr h
+
+/-- **the validated target list.**  If a line typed while no command was in progress leaves the client with a command `k`,
+    then `k` is the product of `install` for this line: all devices went through `installDev` for the target list
+    `k.names`, and `k.names` is — for a bare query, all configured nodes — otherwise `conf_exp_aliases` applied to the
+    expansion of the host expression typed after the keyword, every name of it a configured node -/
+theorem parseLine_validated (w : W) (c : Cli) (line : Bytes) (k : CmdC) (h0 : c.cmd = none)
+    (hk : (parseLine w c line).2.cmd = some k) :
+    (parseLine w c line).1.devs = w.devs.map (installDev (comIdx k.com) (k.names.map ofChars) c.id c.telemetry w.alNext) ∧
+    k.al = w.alNext ∧
+    ((isQuery (comIdx k.com) = true ∧ k.names = expand w.cfg.nodes) ∨
+     (∃ arg hl, scan (kwOf k.com) (stripWs (line.takeWhile (· != 0))) = some arg ∧ createR (toChars arg) = .ok hl ∧
+        k.names = expAliases w.cfg.aliases (expand hl) ∧ ∀ n ∈ k.names, (find w.cfg.nodes n).isSome = true)) := by
+  rcases parseLine_cases' w c line with ⟨_, hc⟩ | ⟨com, names, hp, _, hcase⟩
+  · rw [hc, h0] at hk; cases hk
+  · rw [hp] at hk ⊢
+    rcases install_cases w c com names with hr | ⟨_, hdevs, _, hcli⟩
+    · rw [hr] at hk; simp only [put] at hk; rw [h0] at hk; cases hk
+    · rw [hcli] at hk
+      simp only [Option.some.injEq] at hk
+      subst hk
+      exact ⟨hdevs, rfl, hcase⟩
+
+/-- a plug commanded on behalf of a power request whose (validated) target list is `conf_exp_aliases` of the typed names:
+    its node is a typed name that is not an alias name, or one of the hosts of a typed alias -/
+theorem alias_commanded {d : Dev} {com : Nat} {als : List (Name × List Name)} {typed : List Name} {cid : Nat} {tele : Bool}
+    {al : Nat} {a : Action} (hq : isQuery com = false)
+    (h : a ∈ newActs d.plugs d.scripts com ((expAliases als typed).map ofChars) cid tele al) :
+    ∀ p ∈ a.commanded d, p ∈ d.plugs ∧ ∃ m, p.node = some (ofChars m) ∧
+      ((m ∈ typed ∧ aliasOf als m = none) ∨ ∃ b ∈ typed, ∃ hs, aliasOf als b = some hs ∧ m ∈ hs) := by
+  intro p hp
+  obtain ⟨h1, n, hn, hmem⟩ := newActs_commanded hq h p hp
+  obtain ⟨m, hm, rfl⟩ := List.mem_map.mp hmem
+  exact ⟨h1, m, hn, AliasPf.mem_expAliases.mp hm⟩
+
+/-- the same for the plug list of any appended action (queries included) -/
+theorem alias_subset {d : Dev} {com : Nat} {als : List (Name × List Name)} {typed : List Name} {cid : Nat} {tele : Bool}
+    {al : Nat} {a : Action}
+    (h : a ∈ newActs d.plugs d.scripts com ((expAliases als typed).map ofChars) cid tele al)
+    {ps : List Plug} (hps : a.outerPlugs = some ps) :
+    ∀ p ∈ ps, p ∈ d.plugs ∧ ∃ m, p.node = some (ofChars m) ∧
+      ((m ∈ typed ∧ aliasOf als m = none) ∨ ∃ b ∈ typed, ∃ hs, aliasOf als b = some hs ∧ m ∈ hs) := by
+  intro p hp
+  obtain ⟨h1, n, hn, hmem⟩ := newActs_subset h hps p hp
+  obtain ⟨m, hm, rfl⟩ := List.mem_map.mp hmem
+  exact ⟨h1, m, hn, AliasPf.mem_expAliases.mp hm⟩
+
 /-! ### concrete devices for the non-vacuity examples -/
 def exP1 : Plug := ⟨[49], some [110, 49]⟩          -- plug "1" ↦ node "n1"
 def exP2 : Plug := ⟨[50], none⟩                    -- plug "2" unused
@@ -643,6 +709,46 @@ def exLine : Bytes := [111, 102, 102, 32, 110, 91, 49, 44, 51, 93, 10]
 example : (parseLine exW exC exLine).1.devs.map (fun nd => summary nd.2.acts) = [[(11, some [exP1, exP3])], []] ∧
     ((parseLine exW exC exLine).2.cmd.map fun k => (k.com, k.names, k.pending)) = some (Com.off, [['n', '1'], ['n', '3']], 1) := by
   decide +kernel
+
+/-! ### a configuration with aliases
+
+Two devices: `dt` with plugs "0"…"7" ↦ t0…t7, `du` with plugs "0"…"3" ↦ u0…u3; scripts `on`, `on_ranged`, `off`, `off_ranged`,
+`status_all`.  Aliases `rackt = t0,t1,t2,t3`, `mix = t7,u1,u2`, `dupl = t1,t1`. -/
+
+def alPlug (pfx : Char) (i : Nat) : Plug := ⟨bstr (toString i), some (ofChars (pfx :: (toString i).toList))⟩
+def alScripts : Nat → Option (List Stmt)
+  | 7 => some [.send (bstr "on %s\n")] | 8 => some [.send (bstr "on %s\n")]
+  | 10 => some [.send (bstr "off %s\n")] | 11 => some [.send (bstr "off %s\n")]
+  | 3 => some [.send (bstr "stat\n")]
+  | _ => none
+def alDevT : Dev := exDevWith ((List.range 8).map (alPlug 't')) alScripts
+def alDevU : Dev := exDevWith ((List.range 4).map (alPlug 'u')) alScripts
+def alNames : List Name := ((List.range 8).map fun i => 't' :: (toString i).toList) ++ ((List.range 4).map fun i => 'u' :: (toString i).toList)
+def alW : W :=
+  { cfg := { plugs := [], has := [], nodes := alNames.foldl pushHost [], version := [], aliases := AliasPf.exAls },
+    clients := [], devs := [(bstr "dt", alDevT), (bstr "du", alDevU)] }
+
+/-- what a request line does to `alW`: the client's target list as text, the number of actions awaited, and per device the
+    appended actions (script slot, names of the plugs listed) -/
+def alRun (line : String) : Option (List String × Nat) × List (List (Nat × Option (List String))) :=
+  let r := parseLine alW exC (bstr line)
+  (r.2.cmd.map fun k => (k.names.map String.ofList, k.pending),
+   r.1.devs.map fun nd => nd.2.acts.map fun a => (a.com, a.outerPlugs.map fun ps => ps.map fun p => String.ofList (toChars p.name)))
+
+-- `on rackt,u3`: the alias name is replaced by its four hosts, after the plain name; `on_ranged` for plugs 0-3 of `dt`, `on` for plug 3 of `du`
+example : alRun "on rackt,u3\n" =
+    (some (["u3", "t0", "t1", "t2", "t3"], 2), [[(8, some ["0", "1", "2", "3"])], [(7, some ["3"])]]) := by decide +kernel
+-- `status mix,mix`: an alias typed twice is expanded twice; part of each device is named and there is no singlet `status`: `status_all`
+example : alRun "status mix,mix\n" =
+    (some (["t7", "u1", "u2", "t7", "u1", "u2"], 2), [[(3, none)], [(3, none)]]) := by decide +kernel
+-- `off t2,rackt`: t2 is in the list twice (typed, and as a host of `rackt`); one `off_ranged` action, plug 2 listed once
+example : alRun "off t2,rackt\n" =
+    (some (["t2", "t0", "t1", "t2", "t3"], 1), [[(11, some ["0", "1", "2", "3"])], []]) := by decide +kernel
+-- `off dupl` (`dupl = t1,t1`): duplicates inside an alias are kept; one singlet `off` for plug 1
+example : alRun "off dupl\n" = (some (["t1", "t1"], 1), [[(10, some ["1"])], []]) := by decide +kernel
+-- `on rackt,zz9`: the unknown name is reported (209), nothing is enqueued
+example : (parseLine alW exC (bstr "on rackt,zz9\n")).2.toBuf = bstr "209 No such nodes: zz9\r\npowerman> " ∧
+    (parseLine alW exC (bstr "on rackt,zz9\n")).1.devs.map (fun nd => nd.2.acts.length) = [0, 0] := by decide +kernel
 
 /-! ### a limit of the property: `foreachplug` inside a singlet script
 
